@@ -452,9 +452,27 @@ func (w *worker[T, JobType]) goRemoveIdleWorkers() {
 
 			// If we have more nodes than our target, close the excess ones
 			for _, node := range nodes[targetIdleWorkers:] {
+				if !node.Value.GetLastUsed().Add(interval).Before(time.Now()) {
+					continue
+				}
+
+				// The pass may have been overtaken by Stop and Restart: the nodes of its snapshot are
+				// recycled through the cache, so one of them can be an idle worker of the new run.
+				// stopTickers closes the stop channel under w.mx, so holding it here makes
+				// "this run is still alive" and the removal one step.
+				w.mx.RLock()
+				select {
+				case <-stop:
+					w.mx.RUnlock()
+					return
+				default:
+				}
 				// only the goroutine that takes the node out of the idle list may stop it;
 				// a failed Remove means the dispatcher owns it now
-				if node.Value.GetLastUsed().Add(interval).Before(time.Now()) && w.pool.Remove(node) {
+				removed := w.pool.Remove(node)
+				w.mx.RUnlock()
+
+				if removed {
 					node.Value.Stop()
 					w.pool.Cache.Put(node)
 				}
